@@ -13,6 +13,67 @@ class C06(SessionCheck):
         "modelled: Dispatcher.current_time / min_start_time / available_operations / completed_operations / "
         "ongoing_operations and the four filters (coq/model/World.v, Filters.v)"]
 
+    MODELLED_FILTERS = ("dominated_operations", "non_immediate_machines", "non_idle_machines",
+                        "non_immediate_operations")
+
+    def gen_cases(self, rng, n):
+        cases = super().gen_cases(rng, n)
+        # "any composition of built-in filters": the four filters of the model, and whatever else the library's
+        # ReadyOperationsFilterType enumerates (nothing today). Members the model does not know are judged by the
+        # clauses themselves on the real dispatcher (no tie): a few positive-duration instances per run.
+        for _ in range(4):
+            spec = common.gen_instance(rng, max_jobs=4, max_machines=3, max_ops=3, zero=False)
+            cases.append({"kind": "extra", "spec": spec, "seed": rng.randrange(10 ** 6)})
+        return cases
+
+    def run_impl(self, case):
+        if case.get("kind") != "extra":
+            return super().run_impl(case)
+        import random as _random
+
+        common.import_impl()
+        from job_shop_lib.dispatching import (Dispatcher, ReadyOperationsFilterType,
+                                              ready_operations_filter_factory)
+
+        extra = [t for t in ReadyOperationsFilterType if t.value not in self.MODELLED_FILTERS]
+        problems = []
+        for t in extra:
+            inst = common.build_instance(case["spec"])
+            df = Dispatcher(inst, ready_operations_filter=ready_operations_filter_factory(t))
+            du = Dispatcher(inst)
+            r = _random.Random(case["seed"])
+            prev_now, prev_done = None, set()
+            while not df.schedule.is_complete():
+                avail = df.available_operations()
+                raw = df.raw_ready_operations()
+                if not avail or any(o not in raw for o in avail):
+                    problems.append([t.value, "empty or not a sub-list of the ready operations"])
+                    break
+                if df.current_time() != du.current_time():
+                    problems.append([t.value, "filtered clock %s, unfiltered clock %s" % (df.current_time(),
+                                                                                          du.current_time())])
+                    break
+                done = {(o.job_id, o.position_in_job) for o in df.completed_operations()}
+                if (prev_now is not None and df.current_time() < prev_now) or not prev_done <= done:
+                    problems.append([t.value, "clock went back or a completed operation disappeared"])
+                    break
+                prev_now, prev_done = df.current_time(), done
+                op = r.choice(avail)
+                m = r.choice(op.machines)
+                df.dispatch(op, m)
+                du.dispatch(op, m)
+        return {"extra_filters": [t.value for t in extra], "problems": problems}
+
+    def model_requests(self, case, obs):
+        if case.get("kind") == "extra":
+            return []
+        return super().model_requests(case, obs)
+
+    def nontrivial(self, case, obs):
+        if case.get("kind") == "extra":
+            return False
+        return super().nontrivial(case, obs)
+
     def make_case(self, rng):
         filtered = rng.random() < 0.55
         spec = common.gen_instance(rng, allow_empty_jobs=not filtered, zero=False if filtered else None,
@@ -54,6 +115,11 @@ class C06(SessionCheck):
                 (4, [case["spec"], case["filters"], la])]
 
     def judge(self, case, obs, outs):
+        if case.get("kind") == "extra":
+            self.note("builtin_filters_beyond_the_four_modelled", len(obs["extra_filters"]))
+            return [Failure("oracle", "unmodelled-builtin-filter:" + name,
+                            f"the library's built-in filter '{name}' (not one of the four the model knows): {what}")
+                    for name, what in obs["problems"]]
         model_out, _cl, unfiltered, own, lookahead = outs
         kl = 0
         fails = self.tie_failures(case, obs, model_out)
@@ -108,9 +174,6 @@ class C06(SessionCheck):
                                          expected=sorted(prev_done), observed=sorted(done)))
                 prev_done = done
         return fails
-
-    def nontrivial(self, case, obs):
-        return super().nontrivial(case, obs)
 
     nontrivial_rule = ("event scripts asking current_time() and completed_operations() after every dispatch (random "
                        "order, other queries incl. min_start_time on sub-lists in between); 55% with random filter "
